@@ -457,8 +457,14 @@ input::
         numpy.seterr(**settings)
         if at: return x_
         # clip x0 within bounds
-        x_ = x_ != x0
-        x0[x_] = random.uniform(self._strictMin,self._strictMax)[x_]
+        xc = x_
+        x_ = xc != x0
+        settings = numpy.seterr(all='ignore')
+        xr = random.uniform(self._strictMin,self._strictMax)
+        numpy.seterr(**settings)
+        # an infinite side has no uniform draw: clip at the bound instead
+        xr = numpy.where(numpy.isfinite(xr), xr, xc)
+        x0[x_] = xr[x_]
         return x0
 
     def SetInitialPoints(self, x0, radius=0.05):
